@@ -95,7 +95,7 @@ pub fn worker(a: WorkerArgs) -> i32 {
     // resume from checkpoint if there is one
     let mut res: WorkerResult = std::fs::read(&result_path)
         .ok()
-        .and_then(|b| serde_json::from_slice(&b).ok())
+        .and_then(|b| parse_json(&b).ok())
         .unwrap_or(WorkerResult { from: 0, to: 0, stats: Stats::default(), found: vec![], log_hashes: vec![] });
     let done_upto = res.to; // all of my runs < done_upto are done
     let mut journal = std::fs::OpenOptions::new().create(true).append(true).open(&journal_path).expect("journal");
@@ -176,7 +176,7 @@ pub fn exec_child_with(prop: &str, sc: &serde_json::Value, scratch: &Path, relea
                 let s = String::from_utf8_lossy(&o.stdout);
                 for line in s.lines() {
                     if let Some(j) = line.strip_prefix("RESULT ") {
-                        if let Ok((v, h)) = serde_json::from_str::<(Vec<Violation>, u64)>(j) {
+                        if let Ok((v, h)) = parse_json::<(Vec<Violation>, u64)>(j.as_bytes()) {
                             return ChildOutcome::Violations(v, h);
                         }
                     }
@@ -241,7 +241,7 @@ pub fn describe_status(st: &std::process::ExitStatus) -> String {
 }
 
 pub fn exec_one_cmd(prop: &str, file: &str) -> i32 {
-    let sc: serde_json::Value = match std::fs::read(file).ok().and_then(|b| serde_json::from_slice(&b).ok()) {
+    let sc: serde_json::Value = match std::fs::read(file).ok().and_then(|b| parse_json(&b).ok()) {
         Some(v) => v,
         None => {
             println!("cannot read scenario {file}");
@@ -486,7 +486,7 @@ pub fn run_slices(prop: &str, tier: Tier, seed: u64, total: u64, nw: u64, dir: &
     for w in 0..nw {
         let p = dir.join(format!("result-{w}.json"));
         let b = std::fs::read(&p).map_err(|e| format!("read {p:?}: {e}"))?;
-        let r: WorkerResult = serde_json::from_slice(&b).map_err(|e| format!("parse {p:?}: {e}"))?;
+        let r: WorkerResult = parse_json(&b).map_err(|e| format!("parse {p:?}: {e}"))?;
         stats.merge(r.stats);
         found.extend(r.found);
         for (k, v) in r.log_hashes {
@@ -654,7 +654,7 @@ fn truncate(s: &str, n: usize) -> String {
 // ---------------------------------------------------------------- replay
 
 pub fn replay(file: &str, verbose: bool) -> i32 {
-    let rf: ReplayFile = match std::fs::read(file).ok().and_then(|b| serde_json::from_slice(&b).ok()) {
+    let rf: ReplayFile = match std::fs::read(file).ok().and_then(|b| parse_json(&b).ok()) {
         Some(v) => v,
         None => {
             println!("HARNESS-ERROR cannot read replay file {file}");
